@@ -217,7 +217,7 @@ func runC05(c *core.Ctx) {
 	// both engines configured with EnableNextExpectedMsgSeqNum=Y (the Logon carries tag 789 and the recovery is implied)
 	budgets = append(budgets, c05Budget{Sends: 1, Faults: 1, Swaps: 0, Begin: "FIX.4.4", NextExpected: true})
 	// graceful stops (the engine logs out, is discarded and recreated on its store) among the faults
-	budgets = append(budgets, c05Budget{Sends: 1, Faults: 1, Swaps: 0, Stops: true})
+	budgets = append(budgets, c05Budget{Sends: 2, Faults: 1, Swaps: 0, Stops: true})
 	maxDepth := 60
 	if quick {
 		c.SetDeadline(5 * time.Minute)
@@ -229,7 +229,7 @@ func runC05(c *core.Ctx) {
 		c.SetDeadline(55 * time.Minute)
 	}
 	budget := budgets[0]
-	c.SetRule(fmt.Sprintf("BFS over the deviation events {application send on either side (also while disconnected), connection cut (loses all in-flight bytes in both directions), engine restart on the file store (after a cut, or after a graceful stop with its Logout exchange), delivering the other wire first, the silent-peer timer firing on either side (TestRequest racing the recovery)} interleaved at every step of the default schedule of two real sessions (initiator + acceptor) joined by two FIFO wires through the real stream parser; budget profiles (sends per side / faults / ordering deviations / timer firings) quick 2/1/0/0, 1/1/1/0, 1/2/0/0, 1/1/0/1, FIX.4.1 1/1/0/0 (EnableNextExpectedMsgSeqNum=Y, FIX.4.4) 1/1/0/0 and (with graceful stops) 1/1/0/0, thorough 2/2/1/0, 3/2/1/0, 2/3/2/0, 2/2/1/2 and FIX.4.0/4.1/4.4 2/2/1/0 (first: %d/%d/%d); states de-duplicated by the canonical key of both sessions + wires + deliveries; safety in every state, convergence probe (reconnect, quiesce, up to 3 heartbeat rounds) from every state", budget.Sends, budget.Faults, budget.Swaps))
+	c.SetRule(fmt.Sprintf("BFS over the deviation events {application send on either side (also while disconnected), connection cut (loses all in-flight bytes in both directions), engine restart on the file store (after a cut, or after a graceful stop with its Logout exchange), delivering the other wire first, the silent-peer timer firing on either side (TestRequest racing the recovery)} interleaved at every step of the default schedule of two real sessions (initiator + acceptor) joined by two FIFO wires through the real stream parser; budget profiles (sends per side / faults / ordering deviations / timer firings) quick 2/1/0/0, 1/1/1/0, 1/2/0/0, 1/1/0/1, FIX.4.1 1/1/0/0 (EnableNextExpectedMsgSeqNum=Y, FIX.4.4) 1/1/0/0 and (with graceful stops) 2/1/0/0, thorough 2/2/1/0, 3/2/1/0, 2/3/2/0, 2/2/1/2 and FIX.4.0/4.1/4.4 2/2/1/0 (first: %d/%d/%d); states de-duplicated by the canonical key of both sessions + wires + deliveries; safety in every state, convergence probe (reconnect, quiesce, up to 3 heartbeat rounds) from every state", budget.Sends, budget.Faults, budget.Swaps))
 	c.Assume("sequence resets disabled; FIX.4.2; heartbeat timers are fired by the probe, not by wall-clock", "a connection cut loses in-flight bytes of both directions at the same instant (combined with ordering deviations for asymmetric loss)",
 		"restarts only with the file store; the memory-store run explores cuts only",
 		"one profile runs both engines with EnableNextExpectedMsgSeqNum=Y (FIX.4.4): outside the statement's default configuration, explored because the option replaces the recovery protocol; not replayed on the real pair")
